@@ -16,11 +16,29 @@ def main():
     ap.add_argument("--replay", default=None)
     a = ap.parse_args()
     prop = a.prop.upper()
+    # A run against another tree (VERIF_REPO=<worktree with a seeded change>) regenerates coq/Gen from THAT tree: it must never do so inside
+    # the real /verif, whose generated files (committed copies included) describe /repo.  Such a run re-executes itself in a private copy.
+    if os.path.realpath(lib.REPO) != "/repo" and os.path.realpath(lib.VERIF) == "/verif" and not a.replay:
+        import shutil
+        import subprocess
+        import tempfile
+        tmp = tempfile.mkdtemp(prefix="verif_copy_")
+        try:
+            subprocess.run(["rsync", "-a", "--exclude", ".git", "--exclude", "replays", "/verif/", tmp + "/"], check=True)
+            rc = subprocess.run([os.path.join(tmp, "check")] + sys.argv[1:], cwd=tmp).returncode
+            os.makedirs("/verif/replays", exist_ok=True)
+            for f in os.listdir(os.path.join(tmp, "replays")) if os.path.isdir(os.path.join(tmp, "replays")) else []:
+                shutil.copy(os.path.join(tmp, "replays", f), "/verif/replays/")
+        finally:
+            shutil.rmtree(tmp, ignore_errors=True)
+        sys.exit(rc)
     mod = importlib.import_module("harness.props.%s" % prop.lower())
     if a.replay:
         sys.exit(mod.replay(a.replay))
     c = lib.Check(prop, a.tier, a.seed)
     try:
+        from harness import regen_all
+        regen_all.regen_translated()          # every translated file describes the tree as it is NOW (the owning check reports a failing translator)
         mod.run(c)
     except Exception:  # a crash of the machinery is reported as a broken check, never as a pass
         tb = traceback.format_exc()
